@@ -21,6 +21,7 @@ Used == { j \in 1..Len(lens) : lens[j] > 0 }
 Complete == Kraft(lens) = 65536
 \* the assignment fails exactly when the lengths over-subscribe the tree
 OverIffKraft == Overpopulated(lens) <=> Kraft(lens) > 65536
+CarryChainAgrees == KraftOne(lens) <=> Kraft(lens) = 65536
 PrefixFree == ~Overpopulated(lens) => \A a, b \in Used : a # b => ~Clash(CW[a].w, CW[a].l, CW[b].w, CW[b].l)
 \* every codeword decodes to its own entry and consumes exactly its length, whatever follows
 RoundTrip == ~Overpopulated(lens) => \A a \in Used : \A tail \in {<<>>, <<0>>, <<1>>, <<1, 0, 1>>} :
